@@ -153,6 +153,10 @@ func checkC06(p *Prog, res *Result, tier string) {
 		if o.Rule == "C09-R1" && strings.Contains(o.Construct, "collectStorageWriteEvents") || (o.Rule == "C09-R1" && strings.Contains(o.Construct, "sequencer")) {
 			res.add("C06-R3", o.Rule+" "+o.Construct, o.Status, o.Pos, o.Detail)
 		}
+		// an unknown outcome must reach the sequencer as such (C09-R6) and stay queued until repaired (C09-R3)
+		if o.Rule == "C09-R6" || (o.Rule == "C09-R3" && strings.Contains(o.Construct, "head not popped")) {
+			res.add("C06-R3", o.Rule+" "+o.Construct, o.Status, o.Pos, o.Detail)
+		}
 	}
 	for _, o := range sub9.Obls {
 		if o.Rule == "C09-R1" && o.Construct == funcName(r.Sequencer)+": enqueue unknown-outcome slot before commit" {
